@@ -56,6 +56,12 @@ def allOk {α} : List (Except Err α) → Except Err (List α)
     | .ok l => .ok (a :: l)
     | .error e => .error e
 
+/-- `a_x[t]` for a neighbour: the value, or `KeyError` -/
+def valueOrKeyError (o : Option Nat) : Except Err Nat :=
+  match o with
+  | some a => .ok a
+  | none => .error .key
+
 /-- the body of `for v in nodes` for one reached node: `none` is the `continue` branch -/
 def termH (g : Graph) (lab : Node → LabelVal) (h : Option Hierarchy) (au : Nat) (tDist : List (Node × Nat))
     (v : Node) : Except Err (Option Rat) :=
@@ -67,9 +73,7 @@ def termH (g : Graph) (lab : Node → LabelVal) (h : Option Hierarchy) (au : Nat
     | .error e => .error e
     | .ok s =>
       let vn := g.neighbors v (some td)
-      match allOk (vn.map (fun x => match (lab x).at? td with
-                                    | some ax => (.ok ax : Except Err Nat)
-                                    | none => .error .key)) with
+      match allOk (vn.map (fun x => valueOrKeyError ((lab x).at? td))) with
       | .error e => .error e
       | .ok axs =>
         let cnt := (axs.filter (fun ax => ax == av)).length
